@@ -2,6 +2,7 @@ CONSTANTS
   Thresholds = {1, 2}
   Results = {"ok", "fail"}
   MaxLen = 4
+  WithB = TRUE
   Defects = {"OffByOne"}
 SPECIFICATION Spec
 INVARIANT ExactOnHistory
